@@ -39,7 +39,7 @@ Definition system_time_to_ntp (t : Z) : option N :=
     let seconds_utc := (tn / 1000000000)%N in
     let submicro := ((tn mod 1000000000) / 1000)%N in
     let seconds_ntp := (seconds_utc + NTP_UNIX)%N in
-    let fraction := (((submicro * TWO32) / 1000000) mod TWO32)%N in
+    let fraction := (((submicro * TWO32 + 999999) / 1000000) mod TWO32)%N in   (* rounded up *)
     Some (((seconds_ntp * TWO32) mod TWO64) + fraction)%N.
 
 (* tools/mod.rs:23-37, [ntp] is a u64.  [None] = Err (NTP seconds before 1970). *)
